@@ -5,6 +5,7 @@ import (
 	"reflect"
 
 	gcmp "github.com/google/go-cmp/cmp"
+	"github.com/google/go-cmp/cmp/cmpopts"
 )
 
 func Pipe[T any, U any](elem T, f func(T) U) U {
@@ -32,8 +33,10 @@ func Printf1[T any](fmtstr string, arg T) {
 	fmt.Printf(fmtstr, arg)
 }
 
+// Structural equality: nil and empty slices are the same value, and records with
+// lower-case (unexported) field names are compared like any other record.
 func OpEqual[T any](e1 T, e2 T) bool {
-	return gcmp.Equal(e1, e2)
+	return gcmp.Equal(e1, e2, cmpopts.EquateEmpty(), gcmp.Exporter(func(reflect.Type) bool { return true }))
 }
 
 func OpNotEqual[T any](e1 T, e2 T) bool {
